@@ -41,6 +41,8 @@ type Violation struct {
 	Observed string      `json:"observed,omitempty"`
 	Extra    interface{} `json:"extra,omitempty"`
 	Seq      int64       `json:"seq,omitempty"`
+	// Confirmed is set for crash / hang violations the parent already re-ran alone.
+	Confirmed bool `json:"confirmed,omitempty"`
 }
 
 // Ctx is handed to a harness for one execution.
